@@ -47,4 +47,207 @@ theorem host_tick_cases (a : Anim) (g : Grid) (cols now : Nat) :
     · right; simp
     · left; simp
 
+/-! ## cell matrix geometry -/
+
+@[simp] theorem length_putRow (row : Row) (c : Int) (s : List Char) : (putRow row c s).length = row.length := by
+  simp [putRow]
+
+@[simp] theorem length_printAt (g : Grid) (c r : Int) (s : List Char) : (printAt g c r s).length = g.length := by
+  simp [printAt]
+
+@[simp] theorem length_setRow (g : Grid) (r : Nat) (row : Row) : (Host.setRow g r row).length = g.length := by
+  simp [Host.setRow]
+
+theorem getElem_printAt (g : Grid) (c r : Int) (s : List Char) (i : Nat) (h : i < g.length) :
+    (printAt g c r s)[i]'(by simpa using h) = if Int.ofNat i = r then putRow g[i] c s else g[i] := by
+  simp [printAt]
+
+theorem getElem_setRow (g : Grid) (r : Nat) (row : Row) (i : Nat) (h : i < g.length) :
+    (Host.setRow g r row)[i]'(by simpa using h) = if i = r then row else g[i] := by
+  simp [Host.setRow]
+
+theorem getD_printAt_ne (g : Grid) (c r : Int) (s : List Char) (i : Nat) (hne : Int.ofNat i ≠ r) :
+    (printAt g c r s).getD i [] = g.getD i [] := by
+  by_cases hi : i < g.length
+  · have : i < (printAt g c r s).length := by simpa using hi
+    simp only [List.getD, List.getElem?_eq_getElem this, List.getElem?_eq_getElem hi, Option.getD_some,
+      getElem_printAt g c r s i hi, if_neg hne]
+  · have : ¬ i < (printAt g c r s).length := by simpa using hi
+    simp [List.getD, hi]
+
+theorem getD_setRow_ne (g : Grid) (r : Nat) (row : Row) (i : Nat) (hne : i ≠ r) :
+    (Host.setRow g r row).getD i [] = g.getD i [] := by
+  by_cases hi : i < g.length
+  · have : i < (Host.setRow g r row).length := by simpa using hi
+    simp only [List.getD, List.getElem?_eq_getElem this, List.getElem?_eq_getElem hi, Option.getD_some,
+      getElem_setRow g r row i hi, if_neg hne]
+  · have : ¬ i < (Host.setRow g r row).length := by simpa using hi
+    simp [List.getD, hi]
+
+/-- all rows have width `cols` and there are `rows` of them -/
+def ShapedL (g : Grid) (cols rows : Nat) : Prop := g.length = rows ∧ ∀ r ∈ g, r.length = cols
+
+theorem shaped_printAt (g : Grid) (cols rows : Nat) (c r : Int) (s : List Char) (hg : ShapedL g cols rows) :
+    ShapedL (printAt g c r s) cols rows := by
+  refine ⟨by simpa using hg.1, ?_⟩
+  intro x hx
+  obtain ⟨i, hi, rfl⟩ := List.mem_iff_getElem.mp hx
+  have hi' : i < g.length := by simpa using hi
+  rw [getElem_printAt g c r s i hi']
+  split
+  · rw [length_putRow]; exact hg.2 _ (List.getElem_mem hi')
+  · exact hg.2 _ (List.getElem_mem hi')
+
+theorem shaped_setRow (g : Grid) (cols rows : Nat) (r : Nat) (row : Row) (hg : ShapedL g cols rows)
+    (hrow : row.length = cols) : ShapedL (Host.setRow g r row) cols rows := by
+  refine ⟨by simpa using hg.1, ?_⟩
+  intro x hx
+  obtain ⟨i, hi, rfl⟩ := List.mem_iff_getElem.mp hx
+  have hi' : i < g.length := by simpa using hi
+  rw [getElem_setRow g r row i hi']
+  split
+  · exact hrow
+  · exact hg.2 _ (List.getElem_mem hi')
+
+/-- geometry of a firmware output relative to the grid it started from -/
+def GoodOut (g : Grid) (cols rows row : Nat) (o : Out) : Prop :=
+  ShapedL o.grid cols rows ∧
+  (∀ p ∈ o.prints, (0 ≤ p.col ∧ p.col + Int.ofNat p.len ≤ Int.ofNat cols) ∧ p.row = Int.ofNat row) ∧
+  (∀ i, i ≠ row → o.grid.getD i [] = g.getD i [])
+
+theorem good_id (g : Grid) (cols rows row : Nat) (hg : ShapedL g cols rows) : GoodOut g cols rows row { grid := g } :=
+  ⟨hg, by simp, fun _ _ => rfl⟩
+
+theorem good_clearRow (g : Grid) (cols rows row : Nat) (hg : ShapedL g cols rows) :
+    GoodOut g cols rows row (Fw.clearRow g (Int.ofNat cols) (Int.ofNat row)) := by
+  unfold Fw.clearRow
+  split
+  · exact good_id g cols rows row hg
+  · refine ⟨shaped_printAt _ _ _ _ _ _ hg, ?_, ?_⟩
+    · intro p hp
+      simp only [List.mem_singleton] at hp
+      subst hp
+      simp
+    · intro i hi
+      exact getD_printAt_ne _ _ _ _ _ (by simp only [Int.ofNat_eq_natCast]; omega)
+
+theorem good_frame (g : Grid) (cols rows row : Nat) (c : Int) (s : List Char) (hg : ShapedL g cols rows)
+    (hc : 0 ≤ c) (hlen : c + Int.ofNat s.length ≤ Int.ofNat cols) :
+    GoodOut g cols rows row (Fw.frame g cols row c s) := by
+  have h1 := good_clearRow g cols rows row hg
+  unfold Fw.frame
+  refine ⟨shaped_printAt _ _ _ _ _ _ h1.1, ?_, ?_⟩
+  · intro p hp
+    simp only [List.mem_append, List.mem_singleton] at hp
+    rcases hp with hp | hp
+    · exact h1.2.1 p hp
+    · subst hp
+      exact ⟨⟨hc, hlen⟩, rfl⟩
+  · intro i hi
+    simp only []
+    rw [getD_printAt_ne _ _ _ _ _ (by simp only [Int.ofNat_eq_natCast]; omega)]
+    exact h1.2.2 i hi
+
+theorem length_takeCols_le (cols : Nat) (s : List Char) : (takeCols cols s).length ≤ cols := by
+  unfold takeCols
+  split
+  · rw [List.length_take]; omega
+  · omega
+
+theorem good_frame0 (g : Grid) (cols rows row : Nat) (s : List Char) (hg : ShapedL g cols rows)
+    (hlen : s.length ≤ cols) : GoodOut g cols rows row (Fw.frame g cols row 0 s) :=
+  good_frame g cols rows row 0 s hg (by omega) (by simp only [Int.ofNat_eq_natCast]; omega)
+
+theorem fw_start_good (style : Style) (g : Grid) (cols rows row speed : Nat) (text : List Char) (loop : Bool)
+    (hg : ShapedL g cols rows) : GoodOut g cols rows row (Fw.start style g cols row text speed loop).2 := by
+  unfold Fw.start
+  cases style <;> simp only []
+  · exact good_frame0 _ _ _ _ _ hg (length_takeCols_le _ _)
+  · exact good_frame0 _ _ _ _ _ hg (length_takeCols_le _ _)
+  · split
+    · exact good_frame0 _ _ _ _ _ hg (length_takeCols_le _ _)
+    · exact good_clearRow _ _ _ _ hg
+  · exact good_frame0 _ _ _ _ _ hg (length_takeCols_le _ _)
+
+theorem fw_step_good (a : Anim) (g : Grid) (cols rows : Nat) (hg : ShapedL g cols rows) :
+    GoodOut g cols rows a.row (Fw.step a g cols).2 := by
+  unfold Fw.step
+  cases hst : a.style <;> simp only []
+  · -- scroll
+    split
+    · exact good_id _ _ _ _ hg
+    · exact good_frame0 _ _ _ _ _ hg (by simp)
+  · -- blink
+    split
+    · exact good_frame0 _ _ _ _ _ hg (length_takeCols_le _ _)
+    · exact good_clearRow _ _ _ _ hg
+  · -- typewriter
+    split
+    · exact good_clearRow _ _ _ _ hg
+    · split
+      · exact good_frame0 _ _ _ _ _ hg (length_takeCols_le _ _)
+      · split
+        · exact good_id _ _ _ _ hg
+        · exact good_clearRow _ _ _ _ hg
+  · -- bounce
+    split
+    · exact good_clearRow _ _ _ _ hg
+    · split
+      · exact good_frame0 _ _ _ _ _ hg (by rw [List.length_take]; omega)
+      · rename_i h1 h2
+        simp only [Int.ofNat_eq_natCast] at h1 h2 ⊢
+        apply good_frame _ _ _ _ _ _ hg
+        · split
+          · simp only []; omega
+          · split
+            · split <;> simp
+            · simp only []; omega
+        · split
+          · simp only [Int.ofNat_eq_natCast]
+            split
+            · omega
+            · omega
+          · split
+            · split <;> (simp only [Int.ofNat_eq_natCast]; split <;> omega)
+            · simp only [Int.ofNat_eq_natCast]
+              split <;> omega
+
+/-- geometry of a host buffer relative to the buffer it started from -/
+def GoodGrid (g : Grid) (cols rows row : Nat) (g' : Grid) : Prop :=
+  ShapedL g' cols rows ∧ (∀ i, i ≠ row → g'.getD i [] = g.getD i [])
+
+theorem goodg_id (g : Grid) (cols rows row : Nat) (hg : ShapedL g cols rows) : GoodGrid g cols rows row g :=
+  ⟨hg, fun _ _ => rfl⟩
+
+theorem goodg_setRow (g : Grid) (cols rows row : Nat) (c : Int) (s : List Char) (hg : ShapedL g cols rows) :
+    GoodGrid g cols rows row (Host.setRow g row (putRow (blankRow cols) c s)) :=
+  ⟨shaped_setRow _ _ _ _ _ hg (by simp [blankRow]), fun i hi => getD_setRow_ne _ _ _ _ hi⟩
+
+theorem goodg_setLine (g : Grid) (cols rows row : Nat) (s : List Char) (hg : ShapedL g cols rows) :
+    GoodGrid g cols rows row (Host.setLine g cols row s) :=
+  goodg_setRow _ _ _ _ _ _ hg
+
+theorem host_step_good (a : Anim) (g : Grid) (cols rows : Nat) (hg : ShapedL g cols rows) :
+    GoodGrid g cols rows a.row (Host.step a g cols).2 := by
+  unfold Host.step
+  cases hst : a.style <;> simp only []
+  · split
+    · exact goodg_id _ _ _ _ hg
+    · exact goodg_setLine _ _ _ _ _ hg
+  · split
+    · exact goodg_setLine _ _ _ _ _ hg
+    · exact goodg_setLine _ _ _ _ _ hg
+  · split
+    · exact goodg_setLine _ _ _ _ _ hg
+    · split
+      · exact goodg_setLine _ _ _ _ _ hg
+      · split
+        · exact goodg_setLine _ _ _ _ _ hg
+        · exact goodg_id _ _ _ _ hg
+  · split
+    · exact goodg_setLine _ _ _ _ _ hg
+    · split
+      · exact goodg_setLine _ _ _ _ _ hg
+      · exact goodg_setRow _ _ _ _ _ _ hg
+
 end Reduino.Lemmas.C18
